@@ -16,6 +16,11 @@ Record case := {
   k_contigs : list (list Z);                                     (* idx[name] for every record *)
   k_fetch : list (Z * Z * Z * list Z);                           (* (record number, a, b, returned bytes) *)
   k_genome : list (Z * list Z);       (* Genome.from_file(..).read_sequence()[whole contig]: upper-cased by its DNA encoding *)
+  (* Genome route, sub-intervals handed over in shuffled order: (record number, a, b, returned bytes) *)
+  k_genome_iv : list (Z * Z * Z * list Z);
+  (* the same PATH rewritten with the records in reverse order and opened again in the same process:
+     get_contig_lengths() and the whole contigs of the second file, in its own record order (empty: not exercised) *)
+  k_reopen_lengths : list Z;  k_reopen_contigs : list (list Z);
   (* create_index with the reader asked for chunks of k_chunk bytes (0: not exercised) on the raw file bytes *)
   k_chunk : Z;  k_chunk_raw : list Z;  k_chunk_err : bool;  k_chunk_index : list obs_idx;
   (* a file too large to hand over: the shapes of its records and the .fai the library wrote with its own chunking *)
@@ -49,6 +54,13 @@ Definition spec_ok (c : case) : bool :=
         zlist_eqb got (slice a b (r_seq (nth (Z.to_nat n) (k_recs c) dummy_rec)))) (k_fetch c))
   && all_true (map (fun '(n, got) =>
         zlist_eqb got (map upper (r_seq (nth (Z.to_nat n) (k_recs c) dummy_rec)))) (k_genome c))
+  && all_true (map (fun '(n, a, b, got) =>
+        zlist_eqb got (map upper (slice a b (r_seq (nth (Z.to_nat n) (k_recs c) dummy_rec))))) (k_genome_iv c))
+  && (match k_reopen_lengths c with
+      | [] => true
+      | ls => zlist_eqb ls (map (fun r => len (r_seq r)) (rev (k_recs c)))
+              && zll_eqb (k_reopen_contigs c) (map r_seq (rev (k_recs c)))
+      end)
   (* the index built over a chunked read is the index of the file, however the reader chunked it (an error is
      tolerated only as "chunk size too small", which the model must then predict as well) *)
   && ((k_chunk c =? 0) || k_chunk_err c || idxs_eqb (k_chunk_index c) (spec_index (eol_of c) (k_recs c)))
@@ -68,6 +80,8 @@ Definition model_ok (c : case) : bool :=
   && all_true (map (fun '(n, got) =>
         let ix := nth (Z.to_nat n) mi dummy_idx in
         zlist_eqb got (map upper (fetch_interval ix (k_file c) 0 (i_rlen ix)))) (k_genome c))
+  && all_true (map (fun '(n, a, b, got) =>
+        zlist_eqb got (map upper (fetch_interval (nth (Z.to_nat n) mi dummy_idx) (k_file c) a b))) (k_genome_iv c))
   (* create_index: chunk the raw bytes with the reader model of C01 (wrapped FASTA, seekable file), index every
      chunk, shift by the accumulated sizes *)
   && ((k_chunk c =? 0)
